@@ -147,6 +147,16 @@ wait:
 		binary.BigEndian.PutUint16(*r, orgId)
 		return r, nil
 	case <-dc.closeNotify:
+		// The reply may have been delivered right before the connection was closed
+		// (e.g. the peer answers and closes). select picks a ready case at random, so
+		// look into respChan again before giving up.
+		select {
+		case r := <-respChan:
+			orgId := binary.BigEndian.Uint16(q)
+			binary.BigEndian.PutUint16(*r, orgId)
+			return r, nil
+		default:
+		}
 		return nil, dc.closeErr
 	}
 }
